@@ -95,14 +95,19 @@ pub struct Child {
     pub magic: u64,
     /// the Ok output carries no value (unit futures)
     pub unit: bool,
+    /// the future cannot fail: scripted errors are answered as Ok
+    pub force_ok: bool,
 }
 
 impl Child {
     pub fn new(c: usize) -> Child {
-        Child { c, magic: MAGIC, unit: false }
+        Child { c, magic: MAGIC, unit: false, force_ok: false }
+    }
+    pub fn new_infallible(c: usize, unit: bool) -> Child {
+        Child { c, magic: MAGIC, unit, force_ok: true }
     }
     pub fn new_unit(c: usize) -> Child {
-        Child { c, magic: MAGIC, unit: true }
+        Child { c, magic: MAGIC, unit: true, force_ok: false }
     }
 
     pub fn step(&mut self, cx: &mut Context<'_>, stream: bool) -> Out {
@@ -131,6 +136,7 @@ impl Child {
             (step, k)
         });
         // 2. tail behaviour
+        let force_ok = self.force_ok;
         let (kind, ok, fires) = match step {
             Some(s) => (s.r, s.ok, s.fires),
             None => {
@@ -147,6 +153,7 @@ impl Child {
                 }
             }
         };
+        let ok = ok || force_ok;
         // 3. in-poll fires
         for (fc, fk) in fires {
             let target = if fc == -2 { c } else { fc as usize };
